@@ -140,6 +140,8 @@ def run(ctx):
     ctx.counted('names ending in a line feed: walk (str, bytes, dir_fd, descriptor 0, pathlib) vs REALPATH matcher', ntn_, ntn_ // 2, [{'pattern': '[b]', 'entry': 'b\\n'}])
     nin_ = globcommon.inert_arguments(ctx, rng, 3 if ctx.quick else 6)
     ctx.counted('arguments that cannot change the answer (inert exclude=, root spelling, NOUNIQUE)', nin_, nin_ // 2, [{'pattern': '**', 'exclude': 'zz-no-such-name*'}])
+    from props import fringe
+    fringe.deep_tree_roots(ctx)
     return ctx.finish(RULE)
 
 
